@@ -67,7 +67,7 @@ func Start(o Opts) (*Proxy, error) {
 	env := os.Environ()
 	env = append(env,
 		"MOSPROXY_JSONLOGGER=1",
-		"GORACE=halt_on_error=0 log_path="+filepath.Join(o.Dir, "race"),
+		"GORACE=halt_on_error=0 exitcode=0 log_path="+filepath.Join(o.Dir, "race"), // races are read from the log (C20); the exit status stays the program's own
 		"VERIF_POOL_LOG="+filepath.Join(o.Dir, "pool.log"),
 		"VERIF_HOOK_LOG="+filepath.Join(o.Dir, "hook.log"),
 	)
